@@ -111,6 +111,10 @@ def finish(R, level, rule, assumptions, trusted=None):
             if len(seen) >= 5:
                 log(f"... {len(R.viol)} violation instances in total")
                 break
+    if R.drift:
+        # not an alarm (the property's clauses hold on what was observed), but never silent: the step-level model and
+        # the code disagree somewhere, which is where the next defect or the next modelling error sits
+        print(f"MODEL-DRIFT: property={R.prop} {R.drift} case(s) in which a step of the code is not the step the model takes (see evidence, build/tlc/*/stdout.txt)")
     cov = {"states": R.states, "transitions": R.transitions, "traces_validated_against_impl": R.traces,
            "samples": R.samples[:3] or [{"note": "no cases"}], "evaluations": len(R.cases),
            "distinct_nontrivial": len(R.cases), "rule": rule, "model_runs": R.mc_runs,
@@ -317,7 +321,7 @@ def check_C15(tier, replay=None):
 
 # ------------------------------------------------------------------------- C02
 
-MEMBER_DEVS = ("D08", "D09", "D10", "D11", "D12", "D13", "D14", "D23a", "D23c", "D30", "D32", "D35")
+MEMBER_DEVS = ("D08", "D09", "D10", "D11", "D12", "D13", "D14", "D23a", "D23c", "D30", "D32", "D35", "D37")
 
 
 def check_C02(tier, replay=None):
